@@ -252,7 +252,9 @@ pub fn run(ctx: &Ctx) -> ! {
         "variables are not observable through Runtime; generated programs store their variables into the event at the end".into(),
         "the message of the error produced by a faulted root probe is not compared (runtime words Err and None differently)".into(),
     ];
-    let verdict = rep.finish(ctx);
+    let mut verdict = rep.finish(ctx);
+    // a worker that could not run (spawn failure, wall-clock limit, garbled output) is a harness error, not a pass
+    verdict.harness_errors += ev.worker_errors as u32;
     ev.write(ctx, "fault_enumeration", verdict.violations, &verdict.known_seen);
     exit_with(&verdict)
 }
